@@ -91,9 +91,21 @@ def rtlib_path(variant="plain"):
     return os.path.join(RTLIB_DIR, variant, "libeqlog_runtime.rlib")
 
 
+def rt_src_dir():
+    return os.path.join(WORK, "rt-src")
+
+
 def build_rt(log):
     t0 = time.time()
-    rtdir = os.path.join(VERIF, "rt")
+    # build a copy of /verif/rt whose dependency path points at this work area's mirror
+    rtdir = rt_src_dir()
+    run(["rsync", "-a", "--delete", "--exclude", "target", "--exclude", "Cargo.lock", os.path.join(VERIF, "rt") + "/", rtdir + "/"], check=True)
+    ct = os.path.join(rtdir, "Cargo.toml")
+    with open(ct) as f:
+        txt = f.read()
+    txt = txt.replace("../.work/mirror/eqlog-runtime", os.path.join(MIRROR, "eqlog-runtime"))
+    with open(ct, "w") as f:
+        f.write(txt)
     rc, out, err = run(
         ["cargo", "build", "--offline", "--release"],
         cwd=rtdir,
